@@ -25,3 +25,8 @@ Definition helpers_use_documented_levels : Prop :=
 (* and the model's natural-number level is that class *)
 Definition model_level_is_documented : Prop :=
   forall n : nat, doc_level (Z.of_nat n) = Nat.min n 2.
+
+(* C16: the declared parameters trail as separate arguments exactly at the levels <= 0 and as one stacked vector at
+   every other level - for EVERY integer level *)
+Definition parameters_separate_iff_level_le_0 : Prop :=
+  forall c : Z, gen_level_parameters c = if (c <=? 0)%Z then 0 else 1.
